@@ -9,7 +9,7 @@ from __future__ import annotations
 
 from .. import planlib, world
 from ..catalogue import build, mk_candles, sample_spec, spec_label
-from ..core import Discard, LibError, Violation, run_property
+from ..core import Discard, LibError, Violation, filled_size, run_property
 from ..relational import any_reading, batch_twin, compare_candles
 from ..util import snap_candles, sub_rng, tf_seconds
 
@@ -59,6 +59,7 @@ def execute(trace, ctx=None):
     def body(run):
         spec = trace["config"]["spec"]
         label = spec_label(spec)
+        tfs = [spec["common"].get("timeframe")]
         delivered = []
         subject = None
         n_appends = 0
@@ -79,9 +80,9 @@ def execute(trace, ctx=None):
                 if kind == "new":
                     rows = op.get("preload") or []
                     delivered.extend(rows)
-                    subject = run.call(len(rows), build, spec, rows)
+                    subject = run.call(filled_size(rows, tfs), build, spec, rows)
                     if op.get("calculate"):
-                        run.call(len(rows), subject.calculate)
+                        run.call(filled_size(rows, tfs) * 2, subject.calculate)
                         calculated = True
                 elif subject is None:
                     continue
@@ -92,11 +93,11 @@ def execute(trace, ctx=None):
                         continue
                     n_appends += 1 if rows else 0
                     delivered.extend(rows)
-                    run.call(len(delivered) * 2, subject.append, mk_candles(rows))
+                    run.call(filled_size(delivered, tfs) * 2, subject.append, mk_candles(rows))
                     calculated = True
                 elif kind == "check":
                     if not calculated:
-                        run.call(len(delivered), subject.calculate)
+                        run.call(filled_size(delivered, tfs) * 2, subject.calculate)
                         calculated = True
                     try:
                         twin = batch_twin(spec, delivered)
